@@ -68,9 +68,10 @@ def build_and_validate_headers(headers: Iterable[Tuple[bytes, bytes]]) -> List[T
     # Validates that the header name and value are bytes
     validated_headers: List[Tuple[bytes, bytes]] = []
     for name, value in headers:
-        if name[0] == b":"[0]:
+        name, value = bytes(name).strip(), bytes(value).strip()
+        if name[:1] == b":":
             raise ValueError("Pseudo headers are not valid")
-        validated_headers.append((bytes(name).strip(), bytes(value).strip()))
+        validated_headers.append((name, value))
     return validated_headers
 
 
